@@ -312,7 +312,7 @@ def run_ctor(ctx, pairs, stratum="ctor"):
     ctx.count("monitor:ctor")
     # the argument in several spellings: a dict of the pool's own objects, a dict of equal-but-not-identical objects,
     # a read-only proxy, a UserDict, by keyword
-    how = len(pairs) % 5
+    how = (len(pairs) + sum(len(k_) for k_, _ in pairs)) % 7
     src = {fresh(k): fresh(v) for k, v in pairs} if how else mapping
     if how == 2:
         import types
@@ -322,6 +322,15 @@ def run_ctor(ctx, pairs, stratum="ctor"):
         import collections
 
         arg = collections.UserDict(src)
+    elif how == 5:
+        import collections
+
+        # a dict subclass that makes up values for missing keys: the map built from it must not inherit that
+        arg = collections.defaultdict(lambda: "made-up", src)
+    elif how == 6:
+        import collections
+
+        arg = collections.OrderedDict(src)
     else:
         arg = src
     try:
